@@ -204,22 +204,245 @@ fn api_name(e: &snel_db::engine::auth::AuthError) -> &'static str {
     }
 }
 
+/// One scenario in progress: the real objects, the harness' books, and the two transcripts.
+struct Sess<'a> {
+    w: &'a World,
+    idx: u64,
+    bypass: bool,
+    has_mgr: bool,
+    am: Arc<AuthManager>,
+    truth: Truth,
+    ops: Vec<String>,
+    imp: Vec<String>,
+    types: Vec<String>,
+    schemas0: String,
+    names: Vec<String>,
+    name_types: HashMap<String, Vec<String>>,
+    accounts: Vec<Account>,
+    toks: Vec<Two>,
+    gates: HashMap<u64, Gate>,
+    co: CaseOut,
+}
+
+impl<'a> Sess<'a> {
+    fn new(w: &'a World, idx: u64, am: Arc<AuthManager>, bypass: bool, has_mgr: bool, expiry: u64) -> Self {
+        let types: Vec<String> = vec!["ev_a".into(), "ev_b".into()];
+        Sess {
+            w, idx, bypass, has_mgr, am,
+            truth: Truth { expiry, now: 0, ..Default::default() },
+            ops: vec![], imp: vec![],
+            schemas0: hexlist(&types), types,
+            names: vec![], name_types: HashMap::new(), accounts: vec![], toks: vec![], gates: HashMap::new(),
+            co: CaseOut::default(),
+        }
+    }
+    fn key_of(&self, id: &str) -> String {
+        self.accounts.iter().find(|a| a.id == id).map(|a| a.key.clone()).unwrap_or_default()
+    }
+    async fn mk(&mut self, id: &str, key: &str, roles: &[String]) {
+        let res = self.am.create_user_with_roles(id.to_string(), Some(key.to_string()), roles.to_vec()).await;
+        self.ops.push(format!("mk {} {} {}", hexs(id), hexs(key), hexlist(roles)));
+        match res {
+            Ok(_) => {
+                self.imp.push("ok".into());
+                self.truth.add_user(id, key, roles);
+                self.accounts.push(Account { id: id.to_string(), key: key.to_string(), roles: roles.to_vec() });
+            }
+            Err(e) => {
+                self.co.tallies.push(format!("mk={}", api_name(&e)));
+                self.imp.push(api_name(&e).into());
+            }
+        }
+    }
+    async fn set_perm(&mut self, id: &str, et: &str, rd: bool, wr: bool) {
+        let res = self.am.grant_permission(id, et, PermissionSet::new(rd, wr)).await;
+        self.ops.push(format!("sp {} {} {}{}", hexs(id), hexs(et), rd as u8, wr as u8));
+        self.imp.push(if res.is_ok() { "ok".into() } else { "nouser".into() });
+        if res.is_ok() {
+            self.truth.set_rights(id, et, rd, wr);
+        }
+    }
+    async fn drop_perm(&mut self, id: &str, et: &str) {
+        let res = self.am.revoke_permission(id, et).await;
+        self.ops.push(format!("dp {} {}", hexs(id), hexs(et)));
+        self.imp.push(if res.is_ok() { "ok".into() } else { "nouser".into() });
+        self.truth.set_rights(id, et, false, false);
+    }
+    async fn rev_key(&mut self, id: &str) {
+        let res = self.am.revoke_key(id).await;
+        self.ops.push(format!("rk {}", hexs(id)));
+        self.imp.push(if res.is_ok() { "ok".into() } else { "nouser".into() });
+        self.truth.revoke_key(id);
+    }
+    async fn restart(&mut self) {
+        self.am = self.w.reopen_auth(self.idx).await;
+        self.gates.clear();
+        self.truth.restart();
+        self.ops.push("restart".into());
+        self.imp.push(".".into());
+    }
+    async fn tick(&mut self, d: u64) {
+        tokio::time::sleep(std::time::Duration::from_millis(d * 1000 + 150)).await;
+        self.truth.now += d;
+        self.ops.push(format!("tick {d}"));
+        self.imp.push(".".into());
+    }
+    fn open_conn(&mut self, k: u64) {
+        if !self.gates.contains_key(&k) {
+            self.gates.insert(k, Gate::new(if self.has_mgr { Some(self.am.clone()) } else { None }, "127.0.0.1".into()));
+            self.truth.conns.insert(k, None);
+            self.ops.push(format!("conn {k}"));
+            self.imp.push(".".into());
+        }
+    }
+    fn bound(&self, k: u64) -> Option<String> {
+        self.truth.conns.get(&k).cloned().flatten()
+    }
+
+    /// dispatch_command without a gate (the handlers' own 401 / no-manager branches).
+    async fn direct(&mut self, mgr: bool, uid: Option<&str>, pc: Command) {
+        let res = self.w.run_cmd(if mgr { Some(&self.am) } else { None }, uid, pc.clone()).await;
+        let ans = classify(res);
+        let keyo = ans.text.lines().find_map(|l| l.strip_prefix("Secret key: ")).map(|s| s.to_string());
+        let p = describe(&pc, keyo.as_deref());
+        self.ops.push(format!("dir {} {} {}", mgr as u8, uid.map(hexs).unwrap_or("~".into()), p.descr));
+        self.imp.push(ans.class.clone());
+        self.co.tallies.push(format!("dir={}", ans.class));
+        // keep the books (a gate-less call is the harness acting as operator)
+        self.apply_effects(&pc, &p, &ans, keyo.as_deref(), true);
+    }
+
+    /// One request line on connection `k`: real gate, parser, dispatcher; transcript; oracle.
+    async fn request(&mut self, k: u64, line: &Two) {
+        self.open_conn(k);
+        let bound = self.bound(k);
+        let g = self.gates.get_mut(&k).unwrap();
+        let base = line.real.as_ptr() as usize;
+        let verdict = g.check(&line.real).await.map(|(c, _, u, t)| ((c.to_string(), (c.as_ptr() as usize).wrapping_sub(base)), u, t));
+        match verdict {
+            None => {
+                self.ops.push(format!("req {k} {} -", hexs(&line.toy)));
+                self.imp.push("R".into());
+                self.co.tallies.push("gate=reject".into());
+                self.co.oracle_ok += 1;
+            }
+            Some((_, user, Some(token))) => {
+                // AUTH accepted
+                let user = user.unwrap_or_default();
+                self.ops.push(format!("req {k} {} -", hexs(&line.toy)));
+                self.imp.push(format!("A.{}", hexs(&user)));
+                self.co.tallies.push("gate=auth-ok".into());
+                if self.bypass || !self.has_mgr || self.truth.auth_ok(&line.real, &user) {
+                    self.co.oracle_ok += 1;
+                } else {
+                    self.co.oracle_fail.push(("-".into(), format!("AUTH accepted for {user:?} without a valid signature of an active user: {:?}", line.real)));
+                }
+                self.truth.conns.insert(k, Some(user.clone()));
+                self.truth.tokens.push(truth::TTok { real: token.clone(), owner: user, alive: true, minted_at: self.truth.now });
+                self.toks.push(Two { real: token, toy: scen::toy_token(self.toks.len() as u64) });
+            }
+            Some(((gcmd, goff), user, None)) => {
+                let user = user.unwrap_or_default();
+                self.co.tallies.push("gate=pass".into());
+                let parsed = parse_command(&gcmd);
+                let (descr, ans, pinfo, pc) = match parsed {
+                    Err(_) => ("perr".to_string(), None, None, None),
+                    Ok(pc) => {
+                        let res = self.w.run_cmd(if self.has_mgr { Some(&self.am) } else { None }, Some(&user), pc.clone()).await;
+                        let ans = classify(res);
+                        let keyo = ans.text.lines().find_map(|l| l.strip_prefix("Secret key: ")).map(|s| s.to_string());
+                        let p = describe(&pc, keyo.as_deref());
+                        (p.descr.clone(), Some((ans, keyo)), Some(p), Some(pc))
+                    }
+                };
+                self.ops.push(format!("req {k} {} {}", hexs(&line.toy), descr));
+                let class = ans.as_ref().map(|a| a.0.class.clone()).unwrap_or("perr".into());
+                // the command text as the model will print it (toy rendering of the same slice)
+                let toy_cmd = toy_slice(line, &gcmd, goff);
+                self.imp.push(format!("P.{}.{}.{}", hexs(&toy_cmd), hexs(&user), class));
+                self.co.tallies.push(format!("class={class}"));
+                if class == "200" {
+                    self.co.nontrivial = true;
+                }
+                // ---- oracle
+                if self.bypass || !self.has_mgr {
+                    self.co.oracle_ok += 1; // authentication is configured off: nothing to demand
+                } else {
+                    match self.truth.credential_ok(&line.real, bound.as_deref(), &gcmd, &user) {
+                        Some(f) => { self.co.tallies.push(format!("accepted-by={f}")); self.co.oracle_ok += 1; }
+                        None => self.co.oracle_fail.push(("-".into(), format!(
+                            "gate passed ({gcmd:?}, {user:?}) without a valid credential; line {:?} bound {:?}", line.real, bound))),
+                    }
+                    if let (Some((a, _)), Some(p)) = (&ans, &pinfo) {
+                        judge(&self.truth, &user, p, a, &self.name_types, &mut self.co, &gcmd);
+                    }
+                }
+                if let (Some((a, keyo)), Some(p), Some(pc)) = (&ans, &pinfo, &pc) {
+                    let by_admin = self.truth.is_admin(&user) || self.bypass || !self.has_mgr || user == "bypass";
+                    self.apply_effects(pc, p, a, keyo.as_deref(), by_admin);
+                }
+            }
+        }
+    }
+
+    /// `user:sig:cmd` with a valid signature.
+    fn inline(&self, user: &str, cmd: &str) -> Two {
+        let c = Two::lit(cmd);
+        let mut l = Two::lit(&format!("{user}:"));
+        l.push2(&scen::sig(&self.key_of(user), &c));
+        l.push(":");
+        l.push2(&c);
+        l
+    }
+
+    /// Book-keeping after an executed command: the harness' own view of accounts / names / types.
+    fn apply_effects(&mut self, pc: &Command, p: &Parsed, a: &Answer, keyo: Option<&str>, by_admin: bool) {
+        match pc {
+            Command::Define { event_type, .. } if a.class == "200" => {
+                if !self.types.contains(event_type) { self.types.push(event_type.clone()); }
+            }
+            Command::RememberQuery { spec } if a.class == "200" => {
+                self.names.push(spec.name.clone());
+                self.name_types.insert(spec.name.clone(), p.reads.clone());
+            }
+            Command::CreateUser { user_id, secret_key, roles } if a.class == "200" => {
+                let key = secret_key.clone().or(keyo.map(|s| s.to_string())).unwrap_or_default();
+                let roles = roles.clone().unwrap_or_default();
+                self.truth.add_user(user_id, &key, &roles);
+                self.accounts.push(Account { id: user_id.clone(), key, roles });
+            }
+            Command::RevokeKey { user_id } if a.class == "200" => self.truth.revoke_key(user_id),
+            // a GRANT issued by someone entitled to counts for every listed type, even when the
+            // handler stopped half-way (the oracle must never demand more than the property)
+            Command::GrantPermission { permissions, event_types, user_id } if by_admin && a.class != "401" && a.class != "403" => {
+                for et in event_types {
+                    for pm in permissions {
+                        match pm.as_str() { "read" => self.truth.grant(user_id, et, "read"), "write" => self.truth.grant(user_id, et, "write"), _ => {} }
+                    }
+                }
+            }
+            Command::RevokePermission { permissions, event_types, user_id } if a.class == "200" => {
+                for et in event_types {
+                    if permissions.is_empty() || permissions.iter().any(|x| x == "read") { self.truth.ungrant(user_id, et, "read"); }
+                    if permissions.is_empty() || permissions.iter().any(|x| x == "write") { self.truth.ungrant(user_id, et, "write"); }
+                }
+            }
+            _ => {}
+        }
+    }
+
+    fn finish(mut self, expiry: u64) -> CaseOut {
+        self.co.op = format!("scn {} {} {} {} ; {}", self.bypass as u8, self.has_mgr as u8, expiry, self.schemas0, self.ops.join(" ; "));
+        self.co.imp = self.imp.join(" ");
+        self.co
+    }
+}
+
 async fn run_case(w: &World, seed: u64, stream: &str, i: u64, am0: Arc<AuthManager>, o: &Opts) -> CaseOut {
     let mut r = Rng::for_case(seed, stream, i);
-    let mut co = CaseOut::default();
     let tag = format!("{}x{}", seed % 100000, i);
     let has_mgr = o.bypass || !r.chance(1, 25);
-    let mut am = am0;
-    let mut truth = Truth { expiry: o.expiry, now: 0, ..Default::default() };
-    let mut ops: Vec<String> = vec![];
-    let mut imp: Vec<String> = vec![];
-    let mut types: Vec<String> = vec!["ev_a".into(), "ev_b".into()];
-    let schemas0 = hexlist(&types);
-    let mut names: Vec<String> = vec![];
-    let mut name_types: HashMap<String, Vec<String>> = HashMap::new();
-    let mut accounts: Vec<Account> = vec![];
-    let mut toks: Vec<Two> = vec![];
-    let mut gates: HashMap<u64, Gate> = HashMap::new();
+    let mut s = Sess::new(w, i, am0, o.bypass, has_mgr, o.expiry);
     let mut fresh = 0u64;
 
     // ---- accounts through the API (what bootstrap / an operator does)
@@ -228,31 +451,14 @@ async fn run_case(w: &World, seed: u64, stream: &str, i: u64, am0: Arc<AuthManag
     for (n, id) in ids.iter().enumerate() {
         let key = if r.chance(1, 40) { "z".repeat(513) } else { scen::gen_key(&mut r) };
         let roles: Vec<String> = if n == 0 { vec!["admin".into()] } else { r.pick(scen::ROLE_SETS).iter().map(|s| s.to_string()).collect() };
-        let res = am.create_user_with_roles(id.clone(), Some(key.clone()), roles.clone()).await;
-        ops.push(format!("mk {} {} {}", hexs(id), hexs(&key), hexlist(&roles)));
-        match res {
-            Ok(_) => {
-                imp.push("ok".into());
-                truth.add_user(id, &key, &roles);
-                accounts.push(Account { id: id.clone(), key, roles });
-            }
-            Err(e) => {
-                co.tallies.push(format!("mk={}", api_name(&e)));
-                imp.push(api_name(&e).into());
-            }
-        }
+        s.mk(id, &key, &roles).await;
     }
     // ---- some per-type permission sets through the API
     for _ in 0..r.below(5) {
-        let a = r.pick(&accounts).clone();
+        let a = r.pick(&s.accounts).clone();
         let et = r.pick(&["ev_a", "ev_b", "ev_x"]).to_string();
         let (rd, wr) = (r.chance(1, 2), r.chance(1, 2));
-        let res = am.grant_permission(&a.id, &et, PermissionSet::new(rd, wr)).await;
-        ops.push(format!("sp {} {} {}{}", hexs(&a.id), hexs(&et), rd as u8, wr as u8));
-        imp.push(if res.is_ok() { "ok".into() } else { "nouser".into() });
-        if res.is_ok() {
-            truth.set_rights(&a.id, &et, rd, wr);
-        }
+        s.set_perm(&a.id, &et, rd, wr).await;
     }
 
     let nsteps = 6 + r.below(14);
@@ -260,57 +466,37 @@ async fn run_case(w: &World, seed: u64, stream: &str, i: u64, am0: Arc<AuthManag
         let choice = r.below(100);
         if choice < 6 {
             // API-level change between requests
-            let a = r.pick(&accounts).clone();
+            let a = r.pick(&s.accounts).clone();
             match r.below(4) {
-                0 => {
-                    let res = am.revoke_key(&a.id).await;
-                    ops.push(format!("rk {}", hexs(&a.id)));
-                    imp.push(if res.is_ok() { "ok".into() } else { "nouser".into() });
-                    truth.revoke_key(&a.id);
-                    co.tallies.push("api=revoke_key".into());
-                }
+                0 => { s.rev_key(&a.id).await; s.co.tallies.push("api=revoke_key".into()); }
                 1 => {
-                    let et = r.pick(&types).clone();
-                    let res = am.revoke_permission(&a.id, &et).await;
-                    ops.push(format!("dp {} {}", hexs(&a.id), hexs(&et)));
-                    imp.push(if res.is_ok() { "ok".into() } else { "nouser".into() });
-                    truth.set_rights(&a.id, &et, false, false);
-                    co.tallies.push("api=revoke_permission".into());
+                    let et = r.pick(&s.types).clone();
+                    s.drop_perm(&a.id, &et).await;
+                    s.co.tallies.push("api=revoke_permission".into());
                 }
                 _ => {
-                    let et = r.pick(&types).clone();
+                    let et = r.pick(&s.types).clone();
                     let (rd, wr) = (r.chance(1, 2), r.chance(1, 2));
-                    let res = am.grant_permission(&a.id, &et, PermissionSet::new(rd, wr)).await;
-                    ops.push(format!("sp {} {} {}{}", hexs(&a.id), hexs(&et), rd as u8, wr as u8));
-                    imp.push(if res.is_ok() { "ok".into() } else { "nouser".into() });
-                    truth.set_rights(&a.id, &et, rd, wr);
-                    co.tallies.push("api=grant_permission".into());
+                    s.set_perm(&a.id, &et, rd, wr).await;
+                    s.co.tallies.push("api=grant_permission".into());
                 }
             }
             continue;
         }
         if choice < 8 && o.allow_restart && has_mgr {
-            am = w.reopen_auth(i).await;
-            gates.clear();
-            truth.restart();
-            ops.push("restart".into());
-            imp.push(".".into());
-            co.tallies.push("restart".into());
+            s.restart().await;
+            s.co.tallies.push("restart".into());
             continue;
         }
         if choice < 12 && o.ticks {
-            let d = o.expiry + 1;
-            tokio::time::sleep(std::time::Duration::from_millis(d * 1000 + 150)).await;
-            truth.now += d;
-            ops.push(format!("tick {d}"));
-            imp.push(".".into());
-            co.tallies.push("tick".into());
+            s.tick(o.expiry + 1).await;
+            s.co.tallies.push("tick".into());
             continue;
         }
         // ---- a command text
         fresh += 1;
         let mut creds: Vec<Two> = vec![];
-        if let Some(t) = toks.last() {
+        if let Some(t) = s.toks.last() {
             let mut c = Two::lit("TOKEN ");
             c.push2(t);
             creds.push(c.clone());
@@ -319,7 +505,7 @@ async fn run_case(w: &World, seed: u64, stream: &str, i: u64, am0: Arc<AuthManag
             creds.push(c2);
         }
         {
-            let a = &accounts[0];
+            let a = &s.accounts[0];
             let m = Two::lit("FLUSH");
             let mut c = Two::lit(&format!("{}:", a.id));
             c.push2(&scen::sig(&a.key, &m));
@@ -330,21 +516,24 @@ async fn run_case(w: &World, seed: u64, stream: &str, i: u64, am0: Arc<AuthManag
             creds.push(c);
             creds.push(Two::lit("a TOKEN 0123456789abcdef"));
         }
-        let user_ids: Vec<String> = accounts.iter().map(|a| a.id.clone()).collect();
-        let ctx = CmdCtx {
-            types: &types,
-            users: &user_ids,
-            names: &names,
-            fresh_type: format!("t{tag}n{fresh}"),
-            fresh_name: format!("m{tag}n{fresh}"),
-            fresh_user: format!("nu{fresh}"),
-            creds: &creds,
+        let user_ids: Vec<String> = s.accounts.iter().map(|a| a.id.clone()).collect();
+        let (mut cmd, label) = {
+            let ctx = CmdCtx {
+                types: &s.types,
+                users: &user_ids,
+                names: &s.names,
+                fresh_type: format!("t{tag}n{fresh}"),
+                fresh_name: format!("m{tag}n{fresh}"),
+                fresh_user: format!("nu{fresh}"),
+                creds: &creds,
+            };
+            scen::gen_command(&mut r, &ctx)
         };
-        let (mut cmd, label) = scen::gen_command(&mut r, &ctx);
-        if label == "FLUSH" && !o.allow_flush {
+        if (label == "FLUSH" || label == "REMEMBER" || label == "SHOW") && !o.allow_flush {
+            // the expiry stream runs cases concurrently: no shard-wide flush, no shared catalog file
             cmd = Two::lit("PING");
         }
-        co.tallies.push(format!("cmd={label}"));
+        s.co.tallies.push(format!("cmd={label}"));
 
         if choice < 16 {
             // direct dispatch (no gate): the handlers' own 401 / no-manager branches
@@ -353,36 +542,19 @@ async fn run_case(w: &World, seed: u64, stream: &str, i: u64, am0: Arc<AuthManag
                 0 => None,
                 1 => Some("bypass".into()),
                 2 => Some("no-auth".into()),
-                _ => Some(r.pick(&accounts).id.clone()),
+                _ => Some(r.pick(&s.accounts).id.clone()),
             };
-            let parsed = parse_command(&cmd.real);
-            let Ok(pc) = parsed else { continue };
-            if matches!(pc, Command::Flush) && !o.allow_flush {
-                continue;
-            }
-            let res = w.run_cmd(if mgr { Some(&am) } else { None }, uid.as_deref(), pc.clone()).await;
-            let ans = classify(res);
-            let keyo = ans.text.lines().find_map(|l| l.strip_prefix("Secret key: ")).map(|s| s.to_string());
-            let p = describe(&pc, keyo.as_deref());
-            ops.push(format!("dir {} {} {}", mgr as u8, uid.as_ref().map(|u| hexs(u)).unwrap_or("~".into()), p.descr));
-            imp.push(ans.class.clone());
-            co.tallies.push(format!("dir={}", ans.class));
-            // keep the books (an admin-less direct call is the harness acting as operator)
-            apply_effects(&pc, &p, &ans, keyo.as_deref(), &mut truth, &mut types, &mut names, &mut name_types, &mut accounts, true, mgr);
+            let Ok(pc) = parse_command(&cmd.real) else { continue };
+            s.direct(mgr, uid.as_deref(), pc).await;
             continue;
         }
 
         // ---- a request line on a connection
         let k = r.below(3);
-        if !gates.contains_key(&k) {
-            gates.insert(k, Gate::new(if has_mgr { Some(am.clone()) } else { None }, "127.0.0.1".into()));
-            truth.conns.insert(k, None);
-            ops.push(format!("conn {k}"));
-            imp.push(".".into());
-        }
-        let bound = truth.conns.get(&k).cloned().flatten();
-        let acct = r.pick(&accounts).clone();
-        let other = r.pick(&accounts).clone();
+        s.open_conn(k);
+        let bound = s.bound(k);
+        let acct = r.pick(&s.accounts).clone();
+        let other = r.pick(&s.accounts).clone();
         let form = r.below(100);
         let mut line = Two::default();
         let form_label: &'static str;
@@ -390,19 +562,20 @@ async fn run_case(w: &World, seed: u64, stream: &str, i: u64, am0: Arc<AuthManag
             // AUTH user:sig  (signature over the user id)
             form_label = "AUTH";
             let uid = if r.chance(1, 10) { "ghost".to_string() } else { acct.id.clone() };
-            let (s, sl) = scen::sig_variant(&mut r, &acct.key, &other.key, &Two::lit(&uid), 75);
-            co.tallies.push(format!("sig={sl}"));
+            let (sg, sl) = scen::sig_variant(&mut r, &acct.key, &other.key, &Two::lit(&uid), 75);
+            s.co.tallies.push(format!("sig={sl}"));
             line.push(&scen::flip_case(&mut r, "AUTH"));
             line.push(*r.pick(&[" ", " ", "  ", " \t"]));
             if r.chance(1, 12) {
                 line.push(&uid); // no colon at all
             } else {
                 line.push(&format!("{uid}:"));
-                line.push2(&s);
+                line.push2(&sg);
             }
-        } else if form < 34 && !toks.is_empty() {
+        } else if form < 34 && !s.toks.is_empty() {
             form_label = "TOKEN";
-            let t = r.pick(&toks).clone();
+            let ti = r.below(s.toks.len() as u64) as usize;
+            let t = s.toks[ti].clone();
             let mut c = cmd.clone();
             // sometimes an (unneeded, possibly bad) signature prefix as well
             if r.chance(1, 6) {
@@ -426,20 +599,25 @@ async fn run_case(w: &World, seed: u64, stream: &str, i: u64, am0: Arc<AuthManag
                 8 => { line.push("  TOKEN "); line.push2(&Two { real: t.real.to_uppercase(), toy: t.toy.to_uppercase() }); "uppercase" }
                 _ => { line.push(" TOKEN "); line.push2(&t); "exact" }
             };
-            co.tallies.push(format!("token={tl}"));
+            s.co.tallies.push(format!("token={tl}"));
+            if tv >= 9 || tv == 6 || tv == 7 {
+                let tt = &s.truth.tokens[ti];
+                let state = if !tt.alive { "dead(revoked/restart)" } else if s.truth.now > tt.minted_at + o.expiry { "expired" } else { "live" };
+                s.co.tallies.push(format!("well-formed-token={state}"));
+            }
         } else if form < 60 && bound.is_some() {
             // connection-bound  sig:cmd  (signature over the trimmed command)
             form_label = "BOUND";
             let b = bound.clone().unwrap();
-            let bkey = accounts.iter().find(|a| a.id == b).map(|a| a.key.clone()).unwrap_or_default();
+            let bkey = s.key_of(&b);
             let c = if r.chance(1, 5) { let mut c = Two::lit(" "); c.push2(&cmd); c.push(" "); c } else { cmd.clone() };
             let trimmed = Two { real: c.real.trim().into(), toy: c.toy.trim().into() };
-            let (s, sl) = scen::sig_variant(&mut r, &bkey, &other.key, &trimmed, 80);
-            co.tallies.push(format!("sig={sl}"));
+            let (sg, sl) = scen::sig_variant(&mut r, &bkey, &other.key, &trimmed, 80);
+            s.co.tallies.push(format!("sig={sl}"));
             if r.chance(1, 15) {
                 line.push2(&c); // no signature at all on a bound connection
             } else {
-                line.push2(&s);
+                line.push2(&sg);
                 line.push(":");
                 line.push2(&c);
             }
@@ -453,10 +631,10 @@ async fn run_case(w: &World, seed: u64, stream: &str, i: u64, am0: Arc<AuthManag
                 _ => acct.id.clone(),
             };
             let c = if r.chance(1, 6) { let mut c = Two::lit(" "); c.push2(&cmd); c } else { cmd.clone() };
-            let (s, sl) = scen::sig_variant(&mut r, &acct.key, &other.key, &c, 80);
-            co.tallies.push(format!("sig={sl}"));
+            let (sg, sl) = scen::sig_variant(&mut r, &acct.key, &other.key, &c, 80);
+            s.co.tallies.push(format!("sig={sl}"));
             line.push(&format!("{uid}:"));
-            line.push2(&s);
+            line.push2(&sg);
             line.push(":");
             line.push2(&c);
         } else {
@@ -464,83 +642,69 @@ async fn run_case(w: &World, seed: u64, stream: &str, i: u64, am0: Arc<AuthManag
             line.push2(&cmd);
         }
         let line = scen::pad(&mut r, &line);
-        co.tallies.push(format!("form={form_label}"));
-
-        // ---- the real gate
-        let g = gates.get_mut(&k).unwrap();
-        let base = line.real.as_ptr() as usize;
-        let verdict = g.check(&line.real).await.map(|(c, _, u, t)| ((c.to_string(), (c.as_ptr() as usize).wrapping_sub(base)), u, t));
-        match verdict {
-            None => {
-                ops.push(format!("req {k} {} -", hexs(&line.toy)));
-                imp.push("R".into());
-                co.tallies.push("gate=reject".into());
-                co.oracle_ok += 1;
-            }
-            Some((_, user, Some(token))) => {
-                // AUTH accepted
-                let user = user.unwrap_or_default();
-                ops.push(format!("req {k} {} -", hexs(&line.toy)));
-                imp.push(format!("A.{}", hexs(&user)));
-                co.tallies.push("gate=auth-ok".into());
-                if truth.auth_ok(&line.real, &user) {
-                    co.oracle_ok += 1;
-                } else {
-                    co.oracle_fail.push(("-".into(), format!("AUTH accepted for {user:?} without a valid signature of an active user: {:?}", line.real)));
-                }
-                truth.conns.insert(k, Some(user.clone()));
-                truth.tokens.push(truth::TTok { real: token.clone(), owner: user, alive: true, minted_at: truth.now });
-                toks.push(Two { real: token, toy: scen::toy_token(toks.len() as u64) });
-            }
-            Some(((gcmd, goff), user, None)) => {
-                let user = user.unwrap_or_default();
-                co.tallies.push("gate=pass".into());
-                // the command text handed on, re-rendered for the model: identical up to slots
-                let parsed = parse_command(&gcmd);
-                let (descr, ans, pinfo, pc) = match parsed {
-                    Err(_) => ("perr".to_string(), None, None, None),
-                    Ok(pc) => {
-                        let res = w.run_cmd(if has_mgr { Some(&am) } else { None }, Some(&user), pc.clone()).await;
-                        let ans = classify(res);
-                        let keyo = ans.text.lines().find_map(|l| l.strip_prefix("Secret key: ")).map(|s| s.to_string());
-                        let p = describe(&pc, keyo.as_deref());
-                        (p.descr.clone(), Some((ans, keyo)), Some(p), Some(pc))
-                    }
-                };
-                ops.push(format!("req {k} {} {}", hexs(&line.toy), descr));
-                let class = ans.as_ref().map(|a| a.0.class.clone()).unwrap_or("perr".into());
-                // the command text as the model will print it (toy rendering of the same slice)
-                let toy_cmd = toy_slice(&line, &gcmd, goff);
-                imp.push(format!("P.{}.{}.{}", hexs(&toy_cmd), hexs(&user), class));
-                co.tallies.push(format!("class={class}"));
-                if class == "200" {
-                    co.nontrivial = true;
-                }
-                // ---- oracle
-                if o.bypass || !has_mgr {
-                    co.oracle_ok += 1; // authentication is configured off: nothing to demand
-                } else {
-                    let cred = truth.credential_ok(&line.real, bound.as_deref(), &gcmd, &user);
-                    match cred {
-                        Some(f) => { co.tallies.push(format!("accepted-by={f}")); co.oracle_ok += 1; }
-                        None => co.oracle_fail.push(("-".into(), format!(
-                            "gate passed ({gcmd:?}, {user:?}) without a valid credential; line {:?} bound {:?}", line.real, bound))),
-                    }
-                    if let (Some((a, _)), Some(p)) = (&ans, &pinfo) {
-                        judge(&truth, &user, p, a, &name_types, &mut co, &gcmd);
-                    }
-                }
-                if let (Some((a, keyo)), Some(p), Some(pc)) = (&ans, &pinfo, &pc) {
-                    let by_admin = truth.is_admin(&user) || o.bypass || !has_mgr || user == "bypass";
-                    apply_effects(pc, p, a, keyo.as_deref(), &mut truth, &mut types, &mut names, &mut name_types, &mut accounts, by_admin, has_mgr);
-                }
-            }
-        }
+        s.co.tallies.push(format!("form={form_label}"));
+        s.request(k, &line).await;
     }
-    co.op = format!("scn {} {} {} {} ; {}", o.bypass as u8, has_mgr as u8, o.expiry, schemas0, ops.join(" ; "));
-    co.imp = imp.join(" ");
-    co
+    s.finish(o.expiry)
 }
+
+/// Scripted scenarios: one minimal witness per finding class, plus controls that the same
+/// account is refused where a handler does check. Compared with the model like any other case.
+async fn run_witness(w: &World, i: u64, am0: Arc<AuthManager>) -> CaseOut {
+    let mut s = Sess::new(w, i, am0, false, true, 300);
+    let none: Vec<String> = vec![];
+    s.mk("root", "rk", &["admin".to_string()]).await;
+    s.mk("eve", "ek", &none).await;
+    let tag = format!("w{}p{}", i, std::process::id());
+    macro_rules! req { ($u:expr, $c:expr) => {{ let l = s.inline($u, $c); s.request(0, &l).await; }}; }
+    match i {
+        0 => { req!("eve", "QUERY ev_a"); req!("eve", "REPLAY FOR c1"); req!("eve", "REPLAY ev_a FOR c1"); }
+        1 => { let c = format!("REMEMBER QUERY ev_a AS {tag}"); req!("root", &c); req!("eve", "QUERY ev_a"); let c = format!("SHOW {tag}"); req!("eve", &c); }
+        2 => { let c = format!("REMEMBER QUERY ev_a AS {tag}"); req!("eve", &c); let c = format!("SHOW {tag}"); req!("eve", &c); }
+        3 => { req!("eve", "PLOT count OF ev_a"); req!("eve", "PLOT count OF ev_a VS count OF ev_b"); }
+        4 => { req!("eve", "STORE ev_a FOR c1 PAYLOAD {\"k\":7,\"s\":\"x\"}"); req!("eve", "FLUSH"); }
+        5 => {
+            req!("root", "CREATE USER bypass WITH KEY \"bk\"");
+            req!("bypass", "QUERY ev_a");
+            req!("bypass", "STORE ev_a FOR c1 PAYLOAD {\"k\":7,\"s\":\"x\"}");
+            let c = format!("DEFINE t{tag} FIELDS {{ k: \"int\", s: \"string\" }}");
+            req!("bypass", &c);
+            req!("bypass", "CREATE USER mallory WITH KEY \"mk\" WITH ROLES [\"admin\"]");
+            req!("bypass", "GRANT READ ON ev_a TO eve");
+        }
+        6 => {
+            req!("root", "GRANT READ ON ev_a TO eve");
+            req!("eve", "QUERY ev_b");
+            req!("eve", "QUERY ev_a FOLLOWED BY ev_b LINKED BY k");
+        }
+        7 => {
+            // controls: the checking handlers refuse eve; revocation bites at once
+            req!("eve", "STORE ev_a FOR c1 PAYLOAD {\"k\":7,\"s\":\"x\"}");
+            req!("eve", "DEFINE zz FIELDS { k: \"int\" }");
+            req!("eve", "CREATE USER m2");
+            req!("eve", "GRANT READ ON ev_a TO eve");
+            req!("root", "GRANT READ, WRITE ON ev_a TO eve");
+            req!("eve", "QUERY ev_a");
+            req!("eve", "STORE ev_a FOR c1 PAYLOAD {\"k\":7,\"s\":\"x\"}");
+            req!("root", "REVOKE READ, WRITE ON ev_a FROM eve");
+            req!("eve", "QUERY ev_a");
+            req!("eve", "STORE ev_a FOR c1 PAYLOAD {\"k\":7,\"s\":\"x\"}");
+            let l = Two::lit("QUERY ev_a"); s.request(0, &l).await;
+            let l = { let mut l = Two::lit("AUTH eve:"); l.push2(&scen::sig("ek", &Two::lit("eve"))); l }; s.request(1, &l).await;
+            let l = { let c = Two::lit("PING"); let mut l = scen::sig("ek", &c); l.push(":PING"); l }; s.request(1, &l).await;
+            let t = s.toks[0].clone();
+            let l = { let mut l = Two::lit("PING TOKEN "); l.push2(&t); l }; s.request(2, &l).await;
+            req!("root", "REVOKE KEY eve");
+            let l = { let c = Two::lit("PING"); let mut l = scen::sig("ek", &c); l.push(":PING"); l }; s.request(1, &l).await;
+            let l = { let mut l = Two::lit("PING TOKEN "); l.push2(&t); l }; s.request(2, &l).await;
+            req!("eve", "PING");
+        }
+        _ => {}
+    }
+    s.co.tallies.push(format!("witness={i}"));
+    s.finish(300)
+}
+const WITNESSES: u64 = 8;
 
 /// The model sees the toy rendering of the line; the command the real gate returned is a
 /// sub-slice of the real line at some byte offset — the same offsets in the toy line.
@@ -613,54 +777,15 @@ fn judge(truth: &Truth, user: &str, p: &Parsed, a: &Answer, name_types: &HashMap
     }
 }
 
-/// Book-keeping after an executed command: the harness' own view of accounts / names / types.
-#[allow(clippy::too_many_arguments)]
-fn apply_effects(pc: &Command, p: &Parsed, a: &Answer, keyo: Option<&str>, truth: &mut Truth, types: &mut Vec<String>,
-                 names: &mut Vec<String>, name_types: &mut HashMap<String, Vec<String>>, accounts: &mut Vec<Account>,
-                 by_admin: bool, _mgr: bool) {
-    match pc {
-        Command::Define { event_type, .. } if a.class == "200" => {
-            if !types.contains(event_type) { types.push(event_type.clone()); }
-        }
-        Command::RememberQuery { spec } if a.class == "200" => {
-            names.push(spec.name.clone());
-            name_types.insert(spec.name.clone(), p.reads.clone());
-        }
-        Command::CreateUser { user_id, secret_key, roles } if a.class == "200" => {
-            let key = secret_key.clone().or(keyo.map(|s| s.to_string())).unwrap_or_default();
-            let roles = roles.clone().unwrap_or_default();
-            truth.add_user(user_id, &key, &roles);
-            accounts.push(Account { id: user_id.clone(), key, roles });
-        }
-        Command::RevokeKey { user_id } if a.class == "200" => truth.revoke_key(user_id),
-        // a GRANT issued by someone entitled to counts for every listed type, even when the
-        // handler stopped half-way (the oracle must never demand more than the property)
-        Command::GrantPermission { permissions, event_types, user_id } if by_admin && a.class != "401" && a.class != "403" => {
-            for et in event_types {
-                for pm in permissions {
-                    match pm.as_str() { "read" => truth.grant(user_id, et, "read"), "write" => truth.grant(user_id, et, "write"), _ => {} }
-                }
-            }
-        }
-        Command::RevokePermission { permissions, event_types, user_id } if a.class == "200" => {
-            for et in event_types {
-                if permissions.is_empty() || permissions.iter().any(|x| x == "read") { truth.ungrant(user_id, et, "read"); }
-                if permissions.is_empty() || permissions.iter().any(|x| x == "write") { truth.ungrant(user_id, et, "write"); }
-            }
-        }
-        _ => {}
-    }
-}
-
 fn main() {
     let a = parse_args();
     crypto::self_test();
     assert_eq!(scen::toy_mac("k", "m").len(), 64);
-    std::panic::set_hook(Box::new(|_| {}));
     let (bypass, expiry) = match a.stream.as_str() {
         "scenario" => (false, 300),
         "bypass" => (true, 300),
         "expiry" => (false, 2),
+        "witness" => (false, 300),
         other => {
             eprintln!("unknown stream {other}");
             std::process::exit(2);
@@ -672,6 +797,9 @@ fn main() {
     rt.block_on(async move {
         let w = Arc::new(World::new(root.clone()).await);
         w.seed().await;
+        // BATCH makes the dispatcher panic inside a spawned task (caught and classed "panic"):
+        // keep stderr quiet from here on
+        std::panic::set_hook(Box::new(|_| {}));
         let mut s = Stream::create(&a.out, &stream_name);
         let opts = Arc::new(Opts {
             bypass,
@@ -680,7 +808,8 @@ fn main() {
             allow_flush: stream_name != "expiry",
             ticks: stream_name == "expiry",
         });
-        let todo: Vec<u64> = (0..a.cases).filter(|i| a.only.is_none_or(|o| o == *i)).collect();
+        let ncases = if stream_name == "witness" { WITNESSES } else { a.cases };
+        let todo: Vec<u64> = (0..ncases).filter(|i| a.only.is_none_or(|o| o == *i)).collect();
         let chunk = if stream_name == "expiry" { 48 } else { 1 };
         for group in todo.chunks(chunk) {
             // AuthManagers are created one after the other (their WAL dir comes from an env var)
@@ -688,7 +817,9 @@ fn main() {
             let mut hs = vec![];
             for (i, am) in group.iter().zip(ams) {
                 let (w, o, sn, i, seed) = (w.clone(), opts.clone(), stream_name.clone(), *i, a.seed);
-                hs.push(tokio::spawn(async move { run_case(&w, seed, &sn, i, am, &o).await }));
+                hs.push(tokio::spawn(async move {
+                    if sn == "witness" { run_witness(&w, i, am).await } else { run_case(&w, seed, &sn, i, am, &o).await }
+                }));
             }
             for (i, h) in group.iter().zip(hs) {
                 let co = h.await.expect("case task");
